@@ -280,6 +280,121 @@ def sniff_items(rnd):
     return out
 
 
+def wellformed_images(rnd, n):
+    """syntactically well-formed PNG / JPEG / GIF headers in many shapes (chunk / segment sequences chosen at random);
+    what they MEAN is decided by PictureSniff.tla, not here"""
+    be = lambda v, k: [(v >> (8 * (k - 1 - i))) & 255 for i in range(k)]
+    out = []
+    for i in range(n):
+        kind = ("png", "jpeg", "gif")[i % 3]
+        if kind == "png":
+            w, h = rnd.choice([1, 2, 255, 256, 65535, 65536, 2 ** 31 - 1, 2 ** 31, 2 ** 32 - 1]), rnd.choice([1, 7, 65536, 2 ** 32 - 1])
+            ct = rnd.choice([0, 2, 3, 3, 4, 6])
+            bd = rnd.choice([1, 2, 4, 8, 16])
+            b = [0x89, 0x50, 0x4E, 0x47, 0x0D, 0x0A, 0x1A, 0x0A] + be(13, 4) + list(b"IHDR") + be(w, 4) + be(h, 4) + [bd, ct, 0, 0, rnd.choice([0, 1])] + be(rnd.getrandbits(32), 4)
+            for _ in range(rnd.randint(0, 3)):
+                ln = rnd.choice([0, 1, 4, 9, 300])
+                b += be(ln, 4) + list(rnd.choice([b"gAMA", b"tEXt", b"sRGB", b"pHYs", b"cHRM"])) + [rnd.randrange(256) for _ in range(ln)] + be(0, 4)
+            if ct == 3 or rnd.random() < 0.2:
+                entries = rnd.choice([0, 1, 2, 16, 255, 256])
+                if rnd.random() < 0.15:
+                    b += be(entries * 3 + 1, 4) + list(b"PLTE") + [0] * (entries * 3 + 1) + be(0, 4)      # not a multiple of 3
+                elif rnd.random() < 0.9:
+                    b += be(entries * 3, 4) + list(b"PLTE") + [rnd.randrange(256) for _ in range(entries * 3)] + be(0, 4)
+            b += be(rnd.choice([0, 10]), 4) + list(b"IDAT") + [0] * 10 + be(0, 4) + be(0, 4) + list(b"IEND") + be(0, 4)
+        elif kind == "jpeg":
+            b = [0xFF, 0xD8]
+            for _ in range(rnd.randint(1, 4)):
+                if rnd.random() < 0.1:
+                    b += [0xFF] * rnd.randint(1, 3)                     # fill bytes before a marker (T.81 B.1.1.2)
+                m = rnd.choice([0xE0, 0xE1, 0xE2, 0xED, 0xEE, 0xDB, 0xC4, 0xFE, 0xDD, 0xCC, 0xC8, 0xF0])
+                ln = rnd.choice([2, 3, 4, 16, 67, 300])
+                b += [0xFF, m] + be(ln, 2) + [rnd.randrange(256) for _ in range(ln - 2)]
+            sof = rnd.choice([0xC0, 0xC1, 0xC2, 0xC3, 0xC5, 0xC6, 0xC7, 0xC9, 0xCA, 0xCB, 0xCD, 0xCE, 0xCF])
+            comps = rnd.choice([1, 3, 4])
+            b += [0xFF, sof] + be(8 + 3 * comps, 2) + [rnd.choice([8, 12, 16])] + be(rnd.choice([1, 600, 65535]), 2) + be(rnd.choice([1, 800, 65535]), 2) + [comps] + [1, 0x11, 0] * comps
+            b += [0xFF, 0xDA, 0, 2, 1, 2, 3, 0xFF, 0xD9]
+        else:
+            b = list(rnd.choice([b"GIF87a", b"GIF89a"])) + [rnd.randrange(256) for _ in range(4)] + [rnd.randrange(256), rnd.randrange(256), 0] + [rnd.randrange(256) for _ in range(rnd.choice([0, 6, 30]))]
+        out.append((kind + "-wellformed", b))
+    return out
+
+
+def sniff_growth(wd, pid, items, traces):
+    """Growth beyond the listed properties (non-gating): what Picture::new reports against PictureSniff.tla."""
+    byid = {it["id"]: it for it in items if it["kind"] == "sniff"}
+    tp = os.path.join(wd, "trace_sniff.ndjson")
+    n = 0
+    pair = lambda v: [v >> 16, v & 0xFFFF]
+    with open(tp, "w") as f:
+        for src in traces:
+            for e in read_ndjson(src):
+                if e.get("ev") != "total" or e.get("kind") != "sniff" or e["ret"] == "panic":
+                    continue
+                ev = {"ev": "sniff", "id": e["id"], "class": e["class"], "bytes": byid[e["id"]]["bytes"], "ret": e["ret"],
+                      "mime": "", "width": [0, 0], "height": [0, 0], "depth": 0, "colors": 0}
+                if e["ret"] == "ok":
+                    m = re.match(r"(\S+) (\d+)x(\d+) depth=(\d+) colors=(?:None|Some\((\d+)\))$", e["msg"])
+                    if not m:
+                        raise ToolError("cannot parse sniff result " + e["msg"])
+                    ev.update({"mime": m.group(1), "width": pair(int(m.group(2))), "height": pair(int(m.group(3))), "depth": int(m.group(4)),
+                               "colors": int(m.group(5) or 0)})
+                f.write(json.dumps(ev) + "\n")
+                n += 1
+    tr = tlc_trace(os.path.join(SPEC, "Trace_Sniff.tla"), os.path.join(SPEC, "Trace_Sniff.cfg"), tp, wd, timeout=1200)
+    kinds = {}
+    for ln in tr["rejects"]:
+        m = re.match(r'<<"REJECT", (\d+), (\d+), "growth.sniff", "(\w+)", "([^"]*)">>', ln)
+        key = "%s expected-%s" % (m.group(4), m.group(3))
+        kinds[key] = kinds.get(key, 0) + 1
+    for k, c in sorted(kinds.items()):
+        log("GROWTH-SPEC-MISMATCH module=PictureSniff class=%s count=%d" % (k, c))
+    notes = len(tlc_lines(tr["out"], "NOTE")) if "out" in tr else 0
+    return {"calls": n, "mismatches": len(tr["rejects"]), "mismatch_classes": kinds, "named_deviation_jpeg_fill_bytes_refused": notes}
+
+
+def damaged_metadata_sections(wd, t, rnd):
+    """the format model's encodings of the C11 block classes, then every declared size pushed to 0 / actual-1 / actual+1 / 2^24-1,
+    the first body bytes (counts, lengths) overwritten, reserved block types.  Returns (lists, encodings by id, [(class, bytes)])."""
+    clist = [it for it in c11_items(t, rnd) if not it.get("heavy")]
+    pp = os.path.join(wd, "lists.ndjson")
+    with open(pp, "w") as f:
+        for x in clist:
+            f.write(json.dumps({"id": x["id"], "blocks": [{k: b[k] for k in b if k not in ("text", "text_total")} for b in x["blocks"]]}) + "\n")
+    g = tlc(os.path.join(SPEC, "Gen_Meta.tla"), os.path.join(SPEC, "Gen_Meta.cfg"), wd, workers=1, env={"PLANS": pp}, timeout=3000)
+    if not tlc_lines(g["out"], "TRACE-DONE"):
+        raise ToolError("Gen_Meta failed")
+    encs = {e["id"]: e for e in gen_payloads(g["out"])}
+    out = []
+    for x in clist:
+        e = encs[x["id"]]
+        b = e["bytes"]
+        out.append(("valid:" + re.sub(r"-\d+$", "", x["class"]), b))
+        if len(b) < 8:
+            continue
+        # declared size of each block pushed around; counts inside bodies; every field boundary is covered by truncations elsewhere
+        off = 4
+        nb = 0
+        while off + 4 <= len(b) and nb < 6:
+            size = (b[off + 1] << 16) | (b[off + 2] << 8) | b[off + 3]
+            for ns in (0, max(0, size - 1), size + 1, (1 << 24) - 1):
+                bb = list(b)
+                bb[off + 1:off + 4] = [(ns >> 16) & 255, (ns >> 8) & 255, ns & 255]
+                out.append(("declared-size", bb))
+            # first body bytes often hold a count / length: corrupt them
+            for k in range(min(8, size)):
+                for val in (0, 255):
+                    bb = list(b)
+                    bb[off + 4 + k] = val
+                    out.append(("body-field", bb))
+            bb = list(b)
+            bb[off] = (bb[off] & 0x80) | rnd.choice([7, 8, 126, 127])       # reserved / invalid block types
+            out.append(("block-type", bb))
+            off += 4 + size
+            nb += 1
+    return clist, encs, out
+
+
 def run_c12(pid):
     t0 = time.time()
     t = tier()
@@ -334,42 +449,12 @@ def run_c12(pid):
     # (b) picture sniffing
     for cls, data in sniff_items(rnd):
         add("sniff", cls.split(" ")[0], bytes=data)
+    for cls, data in wellformed_images(rnd, 300 if t == "quick" else 6000):
+        add("sniff", cls, bytes=data)
     # (c) metadata sections: valid encodings from the format model, then size / count fields and lengths damaged
-    clist = [it for it in c11_items(t, rnd) if not it.get("heavy")]
-    pp = os.path.join(wd, "lists.ndjson")
-    with open(pp, "w") as f:
-        for x in clist:
-            f.write(json.dumps({"id": x["id"], "blocks": [{k: b[k] for k in b if k not in ("text", "text_total")} for b in x["blocks"]]}) + "\n")
-    g = tlc(os.path.join(SPEC, "Gen_Meta.tla"), os.path.join(SPEC, "Gen_Meta.cfg"), wd, workers=1, env={"PLANS": pp}, timeout=3000)
-    if not tlc_lines(g["out"], "TRACE-DONE"):
-        raise ToolError("Gen_Meta failed")
-    encs = {e["id"]: e for e in gen_payloads(g["out"])}
-    for x in clist:
-        e = encs[x["id"]]
-        b = e["bytes"]
-        add("blocks", "valid:" + re.sub(r"-\d+$", "", x["class"]), bytes=b)
-        if len(b) < 8:
-            continue
-        # declared size of each block pushed around; counts inside bodies; every field boundary is covered by the truncations below
-        off = 4
-        nb = 0
-        while off + 4 <= len(b) and nb < 6:
-            size = (b[off + 1] << 16) | (b[off + 2] << 8) | b[off + 3]
-            for ns in (0, max(0, size - 1), size + 1, (1 << 24) - 1):
-                bb = list(b)
-                bb[off + 1:off + 4] = [(ns >> 16) & 255, (ns >> 8) & 255, ns & 255]
-                add("blocks", "declared-size", bytes=bb)
-            # first four body bytes often hold a count / length: corrupt them
-            for k in range(min(8, size)):
-                for val in (0, 255):
-                    bb = list(b)
-                    bb[off + 4 + k] = val
-                    add("blocks", "body-field", bytes=bb)
-            bb = list(b)
-            bb[off] = (bb[off] & 0x80) | rnd.choice([7, 8, 126, 127])       # reserved / invalid block types
-            add("blocks", "block-type", bytes=bb)
-            off += 4 + size
-            nb += 1
+    clist, encs, damaged = damaged_metadata_sections(wd, t, rnd)
+    for cls, b in damaged:
+        add("blocks", cls, bytes=b)
     # every truncation of a few rich lists and of the fixtures' metadata sections
     rich = [encs[x["id"]]["bytes"] for x in clist if x["class"] in ("everything", "cuesheet-cdda", "comment", "seektable-ascending")][:6]
     for name in ("cuesheet.flac", "picture.flac", "comment.flac", "seektable.flac"):
@@ -403,15 +488,26 @@ def run_c12(pid):
     log("[%s] %d inputs: %s" % (pid, len(items), classes))
     outcomes = {}
     byid = {it["id"]: it for it in items}
+    sniff_traces = []
     for profile in ("release", "checked"):
         parts = [items[i::8] for i in range(8)]
 
         def drive(ip):
             i, part = ip
             tp = os.path.join(wd, "trace_%s_%d.ndjson" % (profile, i))
-            return tp, run_drive("total", {"out": tp, "items": part}, wd, profile=profile, tag="%s%d" % (profile, i), timeout=3000)
+            return run_drive_items("total", {"out": tp, "items": part}, wd, profile=profile, tag="%s%d" % (profile, i), timeout=3000)
 
-        outs = parallel(drive, [(i, p) for i, p in enumerate(parts) if p], n=8)
+        outs = []
+        for tps, incidents in parallel(drive, [(i, p) for i, p in enumerate(parts) if p], n=8):
+            outs += [(tp, None) for tp in tps]
+            for iid, size in incidents:
+                it = byid[iid]
+                v.violation("%s rule=C12.bounded-allocation kind=%s %s single-request" % (pid, it["kind"], it["class"]),
+                            "%s input %d (%s, %s profile) asked for a single allocation of %d bytes for an input of %d bytes" % (
+                                it["kind"], iid, it["class"], profile, size, len(it.get("bytes", [])) + len(it.get("text", ""))),
+                            {"kind": it["kind"], "class": it["class"], "text": it.get("text"), "bytes": it.get("bytes") if len(it.get("bytes", [])) < 3000 else None, "profile": profile})
+        if profile == "release":
+            sniff_traces = [o[0] for o in outs]
         spec, cfg = os.path.join(SPEC, "Trace_Total.tla"), os.path.join(SPEC, "Trace_Total.cfg")
         for tp, tr in parallel(lambda o: (o[0], tlc_trace(spec, cfg, o[0], wd, env={"PROP": "C12"}, timeout=3000)), outs, n=8):
             with open(tp) as f:
@@ -427,8 +523,10 @@ def run_c12(pid):
                 it = byid[iid]
                 v.violation(sig, "rule %s fails for %s input %d (%s, %s profile): %s" % (rule, kind, iid, cls, profile, rest[:300]),
                             {"kind": kind, "class": cls, "text": it.get("text"), "bytes": it.get("bytes") if len(it.get("bytes", [])) < 3000 else None, "profile": profile})
+    sg = sniff_growth(wd, pid, items, sniff_traces)
     rc = v.finish()
     write_evidence(pid, "model_checking", {
+        "growth_picture_sniff": sg,
         "states": nseq, "transitions": sum(outcomes.values()), "traces_validated_against_impl": len(items) * 2,
         "evaluations": sum(outcomes.values()), "distinct_nontrivial": len(items), "exhaustive": False,
         "samples": [{"kind": items[5]["kind"], "text": items[5].get("text")}, {"kind": "sniff", "class": "png"}],
